@@ -573,6 +573,12 @@ func c17Corpus(r *fw.Rec, s corpus.Source) {
 			return
 		}
 	}
+	// reference conservation: every `!N` written in the text is exactly one edge
+	// to the object defined as !N (none dropped, copied, or bound elsewhere)
+	if key, what := c17RefConservation(text, m); key != "" {
+		r.Violate(fw.Violation{Key: "corpus-" + key + "/" + s.ID, Input: text, What: what})
+		return
+	}
 	r.TallyN("references", "corpus:ref.metadata", c.Refs["ref.metadata"])
 	r.TallyN("references", "corpus:cyclic.metadata", c.Refs["cyclic.metadata"])
 	y, pp := printGuard(m)
@@ -601,4 +607,35 @@ func c17Corpus(r *fw.Rec, s corpus.Source) {
 		r.Nontrivial(s.ID)
 	}
 	r.Sample(map[string]interface{}{"corpus": s.ID, "metadata_definitions": len(m.MetadataDefs), "references_checked": c.Refs["ref.metadata"]})
+}
+
+// c17RefConservation compares the `!N` references of the text with the edges of
+// the parsed graph.
+func c17RefConservation(text string, m *ir.Module) (key, what string) {
+	trefs, tdefs := graph.TextMDRefs(text)
+	grefs, unlisted := graph.GraphMDRefs(m)
+	if len(unlisted) > 0 {
+		return "ref-to-unlisted-definition", fmt.Sprintf("the parsed graph references a numbered definition !%d that is not the object listed under that ID in Module.MetadataDefs", unlisted[0])
+	}
+	ids := map[int64]bool{}
+	for id := range trefs {
+		ids[id] = true
+	}
+	for id := range grefs {
+		ids[id] = true
+	}
+	var sorted []int64
+	for id := range ids {
+		sorted = append(sorted, id)
+	}
+	sort.Slice(sorted, func(i, j int) bool { return sorted[i] < sorted[j] })
+	for _, id := range sorted {
+		if tdefs[id] == 0 {
+			continue // not a definition of this module (reported under C05 when referenced)
+		}
+		if trefs[id] != grefs[id] {
+			return "ref-count", fmt.Sprintf("the text refers to !%d %d times, the parsed graph has %d edges to the object defined as !%d", id, trefs[id], grefs[id], id)
+		}
+	}
+	return "", ""
 }
